@@ -29,6 +29,8 @@ type lockProc struct {
 	Ending    string `json:"ending"` // unlock | exit-without-unlock
 	CrashAtOp int    `json:"crash_at_op,omitempty"`
 	StartMS   int    `json:"start_ms"`
+	// CancelMS > 0: the process is interrupted (context cancelled) that long after its start
+	CancelMS int `json:"cancel_ms,omitempty"`
 }
 
 type lockCase struct {
@@ -73,6 +75,9 @@ func (w *wlock) Drive(s *simrt.Sched, out *RunResult) {
 		if crashers < 2 && c.Choose(3, "crash") == 2 {
 			p.CrashAtOp = 1 + c.Choose(8, "crash-op")
 			crashers++
+		}
+		if p.CrashAtOp == 0 && c.Choose(5, "cancel") == 4 {
+			p.CancelMS = []int{1, 300, 1200}[c.Choose(3, "cancel-ms")]
 		}
 		cs.Procs = append(cs.Procs, p)
 	}
@@ -138,6 +143,7 @@ func (w *wlock) Drive(s *simrt.Sched, out *RunResult) {
 			creator = ""
 		}
 	}
+	interrupted := map[string]bool{}
 	holders := map[string]bool{}
 	acquired := map[string]bool{}
 	maxHolders := 0
@@ -180,9 +186,27 @@ func (w *wlock) Drive(s *simrt.Sched, out *RunResult) {
 			if lp.StartMS > 0 {
 				simrt.Block0(func() { time.Sleep(time.Duration(lp.StartMS) * time.Millisecond) }, "wlock:start")
 			}
-			ctx := console.WithLogger(context.Background(), logger)
+			ctx, cancel := context.WithCancel(console.WithLogger(context.Background(), logger))
+			defer cancel()
+			if lp.CancelMS > 0 {
+				simrt.Go("wlock:interrupt", func() {
+					sl := simrt.NewSelect("wlock:interrupt")
+					simrt.SelRecv(sl, ctx.Done())
+					simrt.SelRecv(sl, time.After(time.Duration(lp.CancelMS)*time.Millisecond))
+					if sl.Wait() == 1 {
+						simrt.Fault("interrupt-waiter")
+						cancel()
+					}
+				})
+			}
 			locker := locking.NewWorkspaceLocker()
 			if err := locker.Lock(ctx); err != nil {
+				if ctx.Err() != nil {
+					mu.Lock()
+					interrupted[lp.Name] = true
+					mu.Unlock()
+					return // interrupted while waiting: gives up without the lock
+				}
 				s.Report(simrt.Violation{Prop: "C10", Class: "lock-error", Signature: "error", Detail: lp.Name + ": Lock returned " + err.Error()})
 				return
 			}
@@ -214,7 +238,7 @@ func (w *wlock) Drive(s *simrt.Sched, out *RunResult) {
 	// liveness is decided by the scheduler (hang / budget); here: every process that was not
 	// crashed must have acquired the lock at some point
 	for i, lp := range cs.Procs {
-		if procs[i].Cause != "crash" && !acquired[lp.Name] && !s.Aborted() {
+		if procs[i].Cause != "crash" && !acquired[lp.Name] && !interrupted[lp.Name] && !s.Aborted() {
 			s.Report(simrt.Violation{Prop: "C10", Class: "never-acquired", Signature: "liveness", Detail: lp.Name + " ended (" + procs[i].Cause + ") without ever acquiring the lock"})
 		}
 	}
